@@ -1,10 +1,13 @@
-/- line-protocol driver for C19: `drv_c19 lex` (see Driver/LexCmd.lean for the operations).
+/- line-protocol driver for C19: `drv_c19 lex` (Driver/LexCmd.lean: tokenize / print_tokens / need_space) and
+   `drv_c19 pass` (Driver/C19PassCmd.lean: a whole -E run over the models, used for the second pass).
    Core Lean only (nothing imported here may import Mathlib, or the executable will not link). -/
 import ChibiVerif.Driver.LexCmd
+import ChibiVerif.Driver.C19PassCmd
 
 def main (args : List String) : IO UInt32 := do
   match args with
   | "lex" :: _ => ChibiVerif.Driver.lexMain
+  | "pass" :: _ => ChibiVerif.Driver.passMain
   | _ =>
-    IO.eprintln "usage: drv_c19 lex"
+    IO.eprintln "usage: drv_c19 lex | pass"
     return 2
